@@ -9535,11 +9535,19 @@ class SVG(Group):
                     if SVG_ATTR_ID in attributes and root is not None and use == 0:
                         root.objects[attributes[SVG_ATTR_ID]] = s
                 if tag in (SVG_TAG_TEXT, SVG_TAG_TSPAN):
-                    s = Text(values, text=elem.text)
-                    s.render(ppi=ppi, width=width, height=height)
-                    if reify:
-                        s.reify()
-                    if context is not None:
+                    try:
+                        s = Text(values, text=elem.text)
+                        s.render(ppi=ppi, width=width, height=height)
+                        if reify:
+                            s.reify()
+                    except ValueError as e:
+                        # An attribute of the text element could not be parsed.
+                        if on_error == "raise":
+                            raise e
+                        elif on_error == "stop":
+                            return root
+                        s = None  # The element is in error and is not rendered.
+                    if s is not None and context is not None:
                         context.append(s)
                 elif SVG_TAG_DESC == tag:
                     s = Desc(values, desc=elem.text)
